@@ -52,7 +52,7 @@ def extension(mg, mf, q):
 def gen_sources(rng, mg):
     k = rng.randint(1, min(3, len(mg.pulses)))
     out = []
-    for p in rng.sample(range(len(mg.pulses)), k):
+    for p in antgen.source_pulses(rng, mg, k):
         mag = 10 ** rng.uniform(-1, 1.5)
         ph = rng.uniform(-math.pi, math.pi) if rng.random() < 0.7 else 0.0
         out.append((p, complex(mag * math.cos(ph), mag * math.sin(ph))))
